@@ -58,6 +58,7 @@ type runCfg struct {
 	maxRetries int
 	bundleThr  int
 	timeouts   bool // short teardown budget: timeouts may fire
+	node       bool // a real v1 stream.SourceNode runs the source (component srcnode)
 	// blind: the store applies a transaction's writes at Commit without write-conflict detection
 	// (last commit wins) — what badger does for blind writes. The in-memory database instead
 	// rejects a commit whose keys changed since the transaction began, which would mask two
@@ -266,6 +267,13 @@ type fakePlugin struct {
 	ctx    context.Context
 	tdErr  error
 	tdN    int
+	// record stream of this run: the plugin hands out one record per permit, in read order after the
+	// position it was opened with, and nothing after Stop; Stop replies with the last position handed out
+	rmu     sync.Mutex
+	permits chan struct{}
+	next    int
+	lastOut opencdc.Position
+	stopped bool
 }
 
 var _ connectorPlugin.SourcePlugin = (*fakePlugin)(nil)
@@ -276,7 +284,12 @@ func (p *fakePlugin) Configure(context.Context, pconnector.SourceConfigureReques
 
 func (p *fakePlugin) Open(_ context.Context, r pconnector.SourceOpenRequest) (pconnector.SourceOpenResponse, error) {
 	p.openAt = append(opencdc.Position(nil), r.Position...)
+	p.rmu.Lock()
+	if n, err := strconv.Atoi(string(p.openAt)); err == nil {
+		p.next = n
+	}
 	p.opened = true
+	p.rmu.Unlock()
 	return pconnector.SourceOpenResponse{}, nil
 }
 
@@ -286,7 +299,23 @@ func (p *fakePlugin) Run(ctx context.Context, _ pconnector.SourceRunStream) erro
 }
 
 func (p *fakePlugin) Stop(context.Context, pconnector.SourceStopRequest) (pconnector.SourceStopResponse, error) {
-	return pconnector.SourceStopResponse{}, nil
+	p.rmu.Lock()
+	defer p.rmu.Unlock()
+	p.stopped = true
+	return pconnector.SourceStopResponse{LastPosition: append(opencdc.Position(nil), p.lastOut...)}, nil
+}
+
+func (p *fakePlugin) isOpened() bool {
+	p.rmu.Lock()
+	defer p.rmu.Unlock()
+	return p.opened
+}
+
+// allow lets the plugin hand out k more records.
+func (p *fakePlugin) allow(k int) {
+	for i := 0; i < k; i++ {
+		p.permits <- struct{}{}
+	}
 }
 
 func (p *fakePlugin) Teardown(context.Context, pconnector.SourceTeardownRequest) (pconnector.SourceTeardownResponse, error) {
@@ -357,8 +386,30 @@ func (s *fakeStream) Send(req pconnector.SourceRunRequest) error {
 }
 
 func (s *fakeStream) Recv() (pconnector.SourceRunResponse, error) {
-	<-s.p.ctx.Done()
-	return pconnector.SourceRunResponse{}, s.p.ctx.Err()
+	p := s.p
+	for {
+		select {
+		case <-p.ctx.Done():
+			return pconnector.SourceRunResponse{}, p.ctx.Err()
+		case <-p.permits:
+		}
+		p.rmu.Lock()
+		if p.stopped {
+			p.rmu.Unlock()
+			continue // nothing is handed out after Stop
+		}
+		p.next++
+		pos := mkPos(p.next)
+		p.lastOut = pos
+		if !p.quiet {
+			p.w.emit(p.inc, "E:"+posTok(pos))
+		}
+		p.rmu.Unlock()
+		return pconnector.SourceRunResponse{Records: []opencdc.Record{{
+			Position: pos, Operation: opencdc.OperationCreate,
+			Key: opencdc.RawData("k"), Payload: opencdc.Change{After: opencdc.RawData("v")},
+		}}}, nil
+	}
 }
 
 type fakeDispenser struct{ p *fakePlugin }
